@@ -114,6 +114,18 @@ var l0Table = []l0Entry{
 		Assume:  func(v map[string]bool) bool { return !v["scalarA"] },
 		Spec:    func(v map[string]bool) bool { return v["riA"] || (v["nnR"] && (v["riR"] || !so(v, "A", "R"))) },
 		Meaning: "iterate when the tensor or the destination requires an iterator or they disagree on data order (non-scalar tensor)"},
+	{Func: "tensor.prepDataVSF64", Target: "useIter",
+		Atoms: map[string]string{"$a.RequiresIterator()": "riA", "$reuse.RequiresIterator()": "riR", "($reuse == nil)": "!nnR", "(nil == $reuse)": "!nnR",
+			"$a.DataOrder().HasSameOrder($reuse.DataOrder())": "so:A:R", "$reuse.DataOrder().HasSameOrder($a.DataOrder())": "so:A:R"},
+		Vars:    []string{"riA", "riR", "nnR", "colA", "colR"},
+		Spec:    func(v map[string]bool) bool { return v["riA"] || (v["nnR"] && (v["riR"] || !so(v, "A", "R"))) },
+		Meaning: "as prepDataVS: iterate when the tensor or the destination requires an iterator or they disagree on data order (finding 81)"},
+	{Func: "tensor.prepDataVSF32", Target: "useIter",
+		Atoms: map[string]string{"$a.RequiresIterator()": "riA", "$reuse.RequiresIterator()": "riR", "($reuse == nil)": "!nnR", "(nil == $reuse)": "!nnR",
+			"$a.DataOrder().HasSameOrder($reuse.DataOrder())": "so:A:R", "$reuse.DataOrder().HasSameOrder($a.DataOrder())": "so:A:R"},
+		Vars:    []string{"riA", "riR", "nnR", "colA", "colR"},
+		Spec:    func(v map[string]bool) bool { return v["riA"] || (v["nnR"] && (v["riR"] || !so(v, "A", "R"))) },
+		Meaning: "as prepDataVS (finding 81)"},
 	{Func: "tensor.prepDataSV", Target: "useIter",
 		Atoms: map[string]string{"$b.RequiresIterator()": "riA", "$reuse.RequiresIterator()": "riR", "($reuse == nil)": "!nnR", "(nil == $reuse)": "!nnR", "$b.IsScalar()": "scalarA",
 			"$b.DataOrder().HasSameOrder($reuse.DataOrder())": "so:A:R", "$reuse.DataOrder().HasSameOrder($b.DataOrder())": "so:A:R"},
